@@ -30,7 +30,8 @@ ANCHORS = ['recursiveloader:ManifestLoader.verify_and_load',
            'verify:verify_path']
 REQUIRED = ['recursiveloader:ManifestLoader.verify_and_load', 'chain_invariant_checks',
             'api:assert_directory_verifies-root', 'api:find_dist_entry',
-            'baseline_accepts', 'stealth_cases_judged', 'weak_cases_judged']
+            'baseline_accepts', 'stealth_cases_judged', 'weak_cases_judged',
+            'twin_cases_judged', 'api:assert_directory_verifies-dir-k']
 ASSUMPTIONS = ['update mode deliberately loads without verification; only loaders '
                'that were not asked to update are covered',
                'the attacker cannot produce hash collisions']
@@ -38,7 +39,11 @@ ASSUMPTIONS = ['update mode deliberately loads without verification; only loader
 TAMPERS = ['change', 'add', 'remove', 'dist-change', 'dist-add', 'dist-remove']
 APIS = ['assert_directory_verifies-root', 'assert_directory_verifies-dir',
         'verify_path', 'assert_path_verifies', 'find_path_entry', 'find_dist_entry',
-        'cli-verify-dir', 'cli-verify-root']
+        'cli-verify-dir', 'cli-verify-root',
+        # keep-going: a handler that returns must not let a broken link through,
+        # neither for the scan itself nor for later calls on the same loader
+        'assert_directory_verifies-dir-k', 'cli-verify-dir-k', 'k-then-verify_path',
+        'k-then-find_dist_entry']
 
 
 def units(tier, seed):
@@ -58,6 +63,10 @@ def units(tier, seed):
         for draw in range(2 if tier == 'quick' else 10):
             u.append({'k': 'chain', 'depth': depth, 'tamper': 'change',
                       'draw': 200 + draw, 'stealth': 'STEALTH'})
+    for depth in (1, 2, 3):
+        for draw in range(6 if tier == 'quick' else 40):
+            u.append({'k': 'chain', 'depth': depth, 'tamper': 'change',
+                      'draw': 300 + draw, 'twin': True})
     if tier == 'quick':
         for depth in (4, 5):
             for t in TAMPERS:
@@ -271,10 +280,32 @@ def run_case(ctx, root, case, layout, dirs, chain, files):
             import logging
             logging.getLogger().setLevel(logging.CRITICAL)
             target = root if api.endswith('root') else os.path.join(root, tdir)
-            rc = gcli.main(['gemato', 'verify', '-P', target])
+            if api.endswith('-k'):
+                target = os.path.join(root, tdir)
+                rc = gcli.main(['gemato', 'verify', '-P', '-k', target])
+            else:
+                rc = gcli.main(['gemato', 'verify', '-P', target])
             if rc != 0:
                 return
             result = 'exit status 0'
+        elif api == 'assert_directory_verifies-dir-k':
+            pol = [False, True, None][case['seed'] % 3]
+            result = m.assert_directory_verifies(tdir, fail_handler=lambda e: pol)
+            if not result:
+                return          # reported as a failure: detected
+        elif api.startswith('k-then-'):
+            pol = [False, True][case['seed'] % 2]
+            try:
+                m.assert_directory_verifies(tdir, fail_handler=lambda e: pol)
+            except ManifestMismatch:
+                pass
+            if api == 'k-then-verify_path':
+                result = m.verify_path(probe_path)
+            else:
+                r1 = m.find_dist_entry(dist_name, tdir)
+                r2 = m.find_dist_entry(marker, tdir)
+                result = ('dist', None if r1 is None else adapt.norm_gemato(r1),
+                          None if r2 is None else adapt.norm_gemato(r2))
         elif api == 'assert_directory_verifies-root':
             result = m.assert_directory_verifies('')
         elif api == 'assert_directory_verifies-dir':
@@ -315,6 +346,84 @@ def run_case(ctx, root, case, layout, dirs, chain, files):
                                                            k, idx), case)
 
 
+TWIN_APIS = ['verify_path', 'assert_path_verifies', 'find_path_entry', 'find_dist_entry',
+             'assert_directory_verifies-root', 'assert_directory_verifies-dir']
+
+
+def run_twin(ctx, root, case, layout, dirs, chain, files):
+    """The attacker touches no genuine Manifest: next to a *compressed* Manifest of
+    the chain a plain file with the same base name is dropped, holding forged
+    entries, and the data file is changed to match them."""
+    from gemato.exceptions import ManifestMismatch
+    from gemato.recursiveloader import ManifestRecursiveLoader
+    rng = common.rng_for('c02twin', case['seed'])
+    cands = [m for m in chain if layout['mans'][m]['fmt'] != 'plain'
+             and any(e['tag'] == 'DATA' for e in layout['mans'][m]['entries'])]
+    if not cands:
+        ctx.discarded('no compressed Manifest with file entries in this chain')
+        return
+    victim = cands[case['seed'] % len(cands)]
+    vdir = os.path.dirname(victim)
+    sfx = mtext.suffix_of(victim)
+    twin = victim[:-len(sfx) - 1]
+    ents = [dict(e, sums=dict(e.get('sums', {}))) for e in layout['mans'][victim]['entries']]
+    genuine = [e for e in ents if e['tag'] == 'DATA'][0]
+    probe = (vdir + '/' if vdir else '') + genuine['path']
+    newdata = b'EVIL' + rng.randbytes(9)
+    with open(os.path.join(root, probe), 'wb') as f:
+        f.write(newdata)
+    hs = sorted(genuine['sums'])
+    genuine_norm = ('DATA', genuine['path'], genuine['size'],
+                    tuple(sorted(genuine['sums'].items())))
+    genuine['size'] = len(newdata)
+    genuine['sums'] = mtext.digests(hs, newdata)
+    marker = 'forged-marker-%d' % rng.randrange(10**9)
+    ents.append({'tag': 'DIST', 'path': marker, 'size': 1, 'sums': {'SHA1': 'ab' * 20}})
+    with open(os.path.join(root, twin), 'w', encoding='utf8') as f:
+        # (the twin repeats the file / DIST entries; links to deeper Manifests are
+        # left out, the attacker has no use for them)
+        f.write(mtext.render([e for e in ents if e.get('_auto') is None]))
+    api = case['api']
+    ctx.case(sig=('c02-twin', case['depth'], api, layout['mans'][victim]['fmt']),
+             case=case, klass='twin')
+    ctx.count('twin_cases_judged')
+    m = ManifestRecursiveLoader(os.path.join(root, 'Manifest'), verify_openpgp=False)
+    try:
+        if api == 'verify_path':
+            r = m.verify_path(probe)
+            bad = r[0] is True
+            result = r
+        elif api == 'assert_path_verifies':
+            m.assert_path_verifies(probe)
+            bad, result = True, 'returned'
+        elif api == 'find_path_entry':
+            e = m.find_path_entry(probe)
+            result = None if e is None else adapt.norm_gemato(e)
+            bad = result is None or result[2:] != genuine_norm[2:]
+        elif api == 'find_dist_entry':
+            e = m.find_dist_entry(marker, vdir)
+            result = None if e is None else adapt.norm_gemato(e)
+            bad = e is not None
+        elif api == 'assert_directory_verifies-root':
+            result = m.assert_directory_verifies('')
+            bad = bool(result)
+        else:
+            result = m.assert_directory_verifies(vdir)
+            bad = bool(result)
+    except ManifestMismatch:
+        chain_invariant(ctx, root, m, case)
+        return
+    except Exception as exc:
+        ctx.violation('twin-raises:' + adapt.exc_key(exc), '%s raised %r' % (api, exc),
+                      case)
+        return
+    chain_invariant(ctx, root, m, case)
+    if bad:
+        ctx.violation('unverified-twin-used:' + api, '%s -> %r: the answer comes from '
+                      'the plain file %r, which no Manifest lists, instead of the '
+                      'verified %r' % (api, result, twin, victim), case)
+
+
 def gen_and_run(ctx, u, k, api, seed):
     rng = common.rng_for(ctx.seed, ID, u['depth'], u['tamper'], u['draw'])
     with common.Scratch('vf-c02-') as d:
@@ -326,11 +435,20 @@ def gen_and_run(ctx, u, k, api, seed):
                 'gen_seed': ctx.seed, 'weak': u.get('weak'),
                 'stealth': u.get('stealth'),
                 'pre': [None, 'find_timestamp', 'find_dist'][seed % 3]}
-        run_case(ctx, root, case, layout, dirs, chain, files)
+        if u.get('twin'):
+            case['twin'] = True
+            run_twin(ctx, root, case, layout, dirs, chain, files)
+        else:
+            run_case(ctx, root, case, layout, dirs, chain, files)
         return len(chain), case
 
 
 def run_unit(u, ctx):
+    if u.get('twin'):
+        for n, api in enumerate(TWIN_APIS):
+            for v in range(2):
+                gen_and_run(ctx, u, 0, api, n * 2 + v)
+        return
     rng = common.rng_for(ctx.seed, ID, u['depth'], u['tamper'], u['draw'])
     with common.Scratch('vf-c02-') as d:
         root = os.path.join(d, 't')
@@ -349,5 +467,6 @@ def run_unit(u, ctx):
 def replay(case, ctx):
     ctx.seed = case.get('gen_seed', ctx.seed)
     u = {'depth': case['depth'], 'tamper': case['tamper'], 'draw': case['draw'],
-         'weak': case.get('weak'), 'stealth': case.get('stealth')}
+         'weak': case.get('weak'), 'stealth': case.get('stealth'),
+         'twin': case.get('twin')}
     gen_and_run(ctx, u, case['k'], case['api'], case['seed'])
